@@ -105,3 +105,29 @@ Proof. exact text_roundtrip_core2_checked. Qed.
 Definition C02_core2_full : Prop := parse_core2_full.
 Theorem C02_core2_full_refuted : ~ parse_core2_full.
 Proof. exact parse_core2_full_refuted. Qed.
+
+From OV Require Import Rt.LexLink2Text Rt.LexLink2 Rt.LexLink2Ex.
+(* TEXT LEVEL for the core2 fragment, every depth and list length: documents with leading / trailing / document comments,
+   lists of scalars (inline and multi-line), section markers with annotations and a META block with scalar and list
+   fields are read back from their EMITTED TEXT as themselves by the full reader model, with no lexer repair and only
+   advisory warnings -- for every cls oracle, every space oracle, strict or lenient.  lex_safe2_doc is decidable; each
+   excluded class has a refutation witness (Rt/LexLink2Ex.v). *)
+Theorem C02_text_roundtrip_core2 :
+  forall cls numcanon holo_ok strict sp d,
+    core2_doc d = true -> lex_safe2_doc d = true ->
+    nums_ok2_l numcanon ex_idnum (dsections d) -> Forall (field_num_ok numcanon) (dmeta d) ->
+    exists warns, parse_model cls numcanon holo_ok strict (lines_of (emit sp d)) = PRDoc d [] warns /\ Forall advisory warns.
+Proof. exact text_roundtrip_core2. Qed.
+
+Theorem C02_lex_emit_core2 :
+  forall cls sp d, core2_doc d = true -> lex_safe2_doc d = true ->
+    exists ts tnl teof,
+      tokenize cls false (lines_of (emit sp d)) = LexOk (ts ++ [tnl; teof]) [] /\
+      Forall2 tmatch ts (doc2_sh needs_multiline ex_idnum d) /\ tk tnl = NEWLINE /\ tk teof = EOF.
+Proof. exact lex_emit_core2. Qed.
+
+Definition C02_lex_emit_core2_full : Prop := lex_emit_core2_full.
+Theorem C02_lex_emit_core2_full_refuted : ~ lex_emit_core2_full.
+Proof. exact lex_emit_core2_full_refuted. Qed.
+Theorem C02_text_roundtrip_core2_nonvacuous : core2_doc ex_all = true /\ lex_safe2_doc ex_all = true.
+Proof. exact (conj ex_all_core ex_all_safe). Qed.
